@@ -65,6 +65,10 @@ func icPoolGet(fr *frame, args []value) value {
 	if n := len(o.pool); n > 0 {
 		v := o.pool[n-1]
 		o.pool = o.pool[:n-1]
+		// the pool hands the object over with synchronisation: what its
+		// previous user wrote is not shared state for the isolation monitor
+		// (coarse: the monitor's records start afresh)
+		fr.m.iso = nil
 		return v
 	}
 	p := args[0].(*value)
